@@ -36,6 +36,7 @@ type Obligation struct {
 }
 
 type Verifier struct {
+	assumingAfter bool // evaluating an assume clause (allocated(x) allocates)
 	forkCall  *ast.CallExpr // call that may fork the enclosing statement (withFork)
 	forkFrame *Frame
 	eng   *Engine
@@ -227,7 +228,9 @@ func (v *Verifier) execBlock(fr *Frame, st *State, stmts []ast.Stmt) []*State {
 							v.havocModifies(fr, o, o.fork(), &Contract{Modifies: cut.Havoc}, s.Pos())
 							note = " (after havoc of " + cut.HavocText + ")"
 						}
+						v.assumingAfter = true
 						o.assume(v.asBool(v.evalSpec(fr, o, cut.Clause.Expr), s.Pos()))
+						v.assumingAfter = false
 						fr.scopeAt = save
 						v.assumed[fmt.Sprintf("%s: after %q assume %s%s", v.curFn, cut.Anchor, cut.Clause.Text, note)] = true
 					}
